@@ -344,6 +344,44 @@ def oracle_received_bytes(c):
     return None
 
 
+def oracle_no_stamped_garbage(c):
+    """model-independent (C08): a destination file that carries the time sent with the last part of a transfer holds the bytes of the *whole*
+    transfer - all its parts since the first, also those that were refused.  (A file that held that very time before is not judged.)"""
+    if 'i_fs' not in c or not c['cmds'] or c['cmds'][0][0][0] != 'SR':
+        return None
+    if any(r.startswith('Error(Continued') for r in c.get('i_resp', [])):
+        return None          # the generated sequence sent a part for another file than the one in progress: not a transfer a boss makes
+    root = bytes.fromhex(c['cmds'][0][0][1][1:]).decode(errors='surrogateescape').rstrip('/')
+    snap = dict(e.split('=', 1) for e in c['i_fs'].split(';') if '=' in e)
+    before = {n[0]: n for n in c['world'].nodes}
+    seq, claim = {}, {}
+    for m, _ in c['cmds'][1:c['done']]:
+        if m[0] == 'SR':
+            return None
+        if m[0] != 'CUF':
+            continue
+        q, data, mt, more = bytes.fromhex(m[1][1:]), bytes.fromhex(m[2][1:]), m[3], m[4] == '1'
+        claim.pop(q, None)
+        seq[q] = seq.get(q, b'') + data
+        if not more:
+            if mt != '-' and q != b'':
+                claim[q] = (mt, seq[q])
+            seq.pop(q, None)
+    for q, (mt, allb) in claim.items():
+        rel = os.path.normpath(root + '/' + q.decode(errors='surrogateescape'))
+        v = snap.get(rel.encode(errors='surrogateescape').hex())
+        if v is None or not v.startswith('F:'):
+            continue
+        _, got_mt, got = v.split(':', 2)
+        old = before.get(rel)
+        if old is not None and old[1] == 'F' and str(old[3]) == mt:
+            continue
+        if got_mt == mt and 0 <= int(mt) <= 2 ** 33 * 10 ** 9 and got != allb.hex():
+            return (f'file {q!r} carries the time {mt} that was sent with the last part of a transfer of {len(allb)} bytes, but holds {len(got) // 2} bytes '
+                    f'({got[:40]}... instead of {allb.hex()[:40]}...): a later run takes it for up to date')
+    return None
+
+
 def describe(c):
     return dict(root=c['root'], world=[(n[0], n[1]) + tuple((x.hex() if isinstance(x, bytes) and len(x) <= 40 else (f'<{len(x)} bytes>' if isinstance(x, bytes) else x)) for x in n[2:]) for n in c['world'].nodes],
                 commands=[' '.join(m) for m, _ in c['cmds']], filters=c['filters'], model=c.get('model', '')[:1500], impl=c.get('impl', '')[:1500], problem=c.get('problem'))
